@@ -470,28 +470,34 @@ func (w *W) c12Array(pj *simdjson.ParsedJson, l Loc, ma *ref.Value, cs *ev.Case,
 		}
 		return a
 	}
-	var desc func() string
-	bad := func(api, detail string) {
-		w.Violation("C12/"+api+"/"+nosp(desc()), detail+" [array at "+l.String()+" of "+docKey+"]", cs)
-	}
-	desc = func() string {
-		var parts []string
-		for i, e := range ma.A {
-			if i >= 6 {
-				parts = append(parts, "...")
-				break
-			}
-			if isNum(e) {
-				parts = append(parts, numText(e))
-			} else {
-				parts = append(parts, e.K.String())
-			}
+	arrayAccessors(getArr, ma, func() { w.Eval(1) }, func(api, detail string) {
+		w.Violation("C12/"+api+"/"+nosp(arrDesc(ma)), detail+" [array at "+l.String()+" of "+docKey+"]", cs)
+	})
+}
+
+func arrDesc(ma *ref.Value) string {
+	var parts []string
+	for i, e := range ma.A {
+		if i >= 6 {
+			parts = append(parts, "...")
+			break
 		}
-		return "[" + strings.Join(parts, " ") + "]"
+		if isNum(e) {
+			parts = append(parts, numText(e))
+		} else {
+			parts = append(parts, e.K.String())
+		}
 	}
+	return "[" + strings.Join(parts, " ") + "]"
+}
+
+// arrayAccessors judges the typed and bulk accessors of one array against its model:
+// AsFloat, AsInteger, AsUint64, AsString, AsStringCvt, Interface, FirstType.
+func arrayAccessors(getArr func() *simdjson.Array, ma *ref.Value, eval func(), bad func(api, detail string)) {
+	desc := func() string { return arrDesc(ma) }
 	// AsFloat
 	if a := getArr(); a != nil {
-		w.Eval(1)
+		eval()
 		got, err := a.AsFloat()
 		ok := true
 		var want []float64
@@ -520,7 +526,7 @@ func (w *W) c12Array(pj *simdjson.ParsedJson, l Loc, ma *ref.Value, cs *ev.Case,
 	}
 	// AsInteger
 	if a := getArr(); a != nil {
-		w.Eval(1)
+		eval()
 		got, err := a.AsInteger()
 		ok := true
 		var want []int64
@@ -563,7 +569,7 @@ func (w *W) c12Array(pj *simdjson.ParsedJson, l Loc, ma *ref.Value, cs *ev.Case,
 			want = append(want, v)
 		}
 		if judged {
-			w.Eval(1)
+			eval()
 			got, err := a.AsUint64()
 			if ok != (err == nil) {
 				bad("Array.AsUint64", fmt.Sprintf("AsUint64 on %s: err=%v, want ok=%v", desc(), err, ok))
@@ -574,7 +580,7 @@ func (w *W) c12Array(pj *simdjson.ParsedJson, l Loc, ma *ref.Value, cs *ev.Case,
 	}
 	// AsString
 	if a := getArr(); a != nil {
-		w.Eval(1)
+		eval()
 		got, err := a.AsString()
 		ok := true
 		var want []string
@@ -593,7 +599,7 @@ func (w *W) c12Array(pj *simdjson.ParsedJson, l Loc, ma *ref.Value, cs *ev.Case,
 	}
 	// AsStringCvt
 	if a := getArr(); a != nil {
-		w.Eval(1)
+		eval()
 		got, err := a.AsStringCvt()
 		ok := true
 		var want []string
@@ -628,7 +634,7 @@ func (w *W) c12Array(pj *simdjson.ParsedJson, l Loc, ma *ref.Value, cs *ev.Case,
 	}
 	// Interface
 	if a := getArr(); a != nil {
-		w.Eval(1)
+		eval()
 		got, err := a.Interface()
 		if err != nil {
 			bad("Array.Interface", err.Error())
